@@ -137,3 +137,34 @@ def enum_ob(obid: str, functions: List[str], cases: Callable[[], Iterable[Any]],
         return core.bounded_pass(f"{n} cases ({skipped} outside the precondition)", n, time.time() - t0,
                                  sample={"first_case": first, "cases": n, "exhaustive_over_stated_domain": exhaustive})
     return Ob(obid, "bounded", functions, run, desc, timeout=timeout, tier=tier)
+
+
+def anchor_modules(prop: str) -> List[str]:
+    import os
+    mods = []
+    for l in open(os.path.join(core.ROOT, "properties.jsonl")):
+        d = json.loads(l)
+        if d["id"] == prop:
+            mods = [f[len("src/"):-3].replace("/", ".") for f in d["anchors"]["files"]]
+    return mods
+
+
+def frames_ob(prop: str) -> Ob:
+    """Frame conditions (modifies clauses) on EVERY function of the modules the property is anchored in: a function may write only
+    the targets pinned in contracts/frames.json (derived from the reviewed tree: constructors, the documented in-place helpers,
+    the runners' counters, the three ghost caches) and carries no memoisation decorator beyond the three pinned ones.  A query
+    that starts keeping state between calls (a cache on self / in a module dictionary / lru_cache), or a function that starts
+    writing through an argument, fails this obligation."""
+    from . import frame
+    mods = anchor_modules(prop)
+
+    def run():
+        t0 = time.time()
+        st, txt, bad, n = frame.frames_outcome(mods)
+        if st == "discharged":
+            return core.discharged("engine-F", time.time() - t0, queries=n, sample={"functions_checked": n, "modules": mods})
+        return core.refuted("engine-F", "frame (modifies clause) violated: " + txt, cex={"violations": bad[:20]}, seconds=time.time() - t0, queries=n,
+                            finding_key="")
+    return Ob(f"{prop}.frames.all", "proof", [m + ":*" for m in mods], run,
+              "every function of the anchored modules writes only what its pinned frame (modifies clause) allows - no new state kept between calls "
+              "(instance / module caches, memoisation decorators), no new writes through arguments", timeout=300)
